@@ -5,7 +5,7 @@ import shutil
 import numpy as np
 
 from gen.dataset import random_spec
-from vmon.core import call, same, hkey, scratch_dir
+from vmon.core import as_id, call, same, hkey, scratch_dir
 
 ID = 'C07'
 LEVEL = 'exploration'
@@ -246,16 +246,16 @@ def _model_case(case, ctx):
         st = spec.spike_templates
         sc = spec.clusters
         for t in range(spec.n_templates + 1):
-            rr = call(m.get_template_spikes, t)
+            rr = call(m.get_template_spikes, as_id(t, t))
             if not rr.ok or same(rr.value, np.nonzero(st == t)[0], dtype=False):
                 ctx.violation('model_query', case, 'get_template_spikes(%d) -> %r' % (
                     t, rr.value if rr.ok else rr.exc), {'model': True}, tb=rr.tb)
         for c in range(int(sc.max()) + 2):
-            rr = call(m.get_cluster_spikes, c)
+            rr = call(m.get_cluster_spikes, as_id(c, c + 1))
             if not rr.ok or same(rr.value, np.nonzero(sc == c)[0], dtype=False):
                 ctx.violation('model_query', case, 'get_cluster_spikes(%d) -> %r' % (
                     c, rr.value if rr.ok else rr.exc), {'model': True}, tb=rr.tb)
-            rr = call(m.get_template_counts, c)
+            rr = call(m.get_template_counts, as_id(c, c + 2))
             exp = np.bincount(st[sc == c].astype(np.int64), minlength=spec.n_templates)
             if not rr.ok or same(rr.value, exp, dtype=False):
                 ctx.violation('model_query', case, 'get_template_counts(%d) -> %r, expected %r' % (
@@ -269,11 +269,11 @@ def _model_case(case, ctx):
         sc2[sel] = new_id
         if rr.ok:
             for c in sorted(set(ids[:2].tolist() + [new_id, int(ids[-1])])):
-                rr = call(m.get_cluster_spikes, c)
+                rr = call(m.get_cluster_spikes, as_id(c, c + 1))
                 if not rr.ok or same(rr.value, np.nonzero(sc2 == c)[0], dtype=False):
                     ctx.violation('model_query', case, 'after an in-place update of spike_clusters, get_cluster_spikes(%d) -> %r' % (
                         c, rr.value if rr.ok else rr.exc), {'model': True, 'after_inplace_update': True}, tb=rr.tb)
-                rr = call(m.get_template_counts, c)
+                rr = call(m.get_template_counts, as_id(c, c + 2))
                 exp = np.bincount(st[sc2 == c].astype(np.int64), minlength=spec.n_templates)
                 if not rr.ok or same(rr.value, exp, dtype=False):
                     ctx.violation('model_query', case, 'after an in-place update, get_template_counts(%d) -> %r' % (
